@@ -49,6 +49,23 @@ def method(ctx: Ctx, ci: ClassInfo, name: str) -> FuncInfo:
     return m
 
 
+def connector(ctx: Ctx, ci: ClassInfo) -> FuncInfo:
+    """The method of the protocol class that creates the endpoint (create_datagram_endpoint / create_connection):
+    `_connect` on the pinned tree; the role survives inlining it into its caller or renaming it."""
+    found = []
+    for c in ctx.prog.mro(ci):
+        if not hasattr(c, "methods"):
+            continue
+        for m in c.methods.values():
+            if ctx.prog.find_method(ci, m.name) is not m:
+                continue
+            if any(isinstance(n, ast.Call) and (call_chain(n) or ("",))[-1] in ("create_datagram_endpoint", "create_connection") for n in walk_no_lambda(m.node)):
+                found.append(m)
+    if len(found) != 1:
+        raise AnalysisError("%s: expected one method creating the endpoint, found %s" % (ci.name, [f.short for f in found]))
+    return found[0]
+
+
 def loop_callbacks(ctx: Ctx, ci: Optional[ClassInfo] = None) -> List[FuncInfo]:
     """Methods asyncio invokes on the protocol objects (by base class), plus call_soon/call_later targets."""
     prog = ctx.prog
